@@ -537,6 +537,16 @@ def maxLifeRange : Nat := 20
 def flrLe (a b : FLR) : Bool :=
   a.start < b.start || (a.start == b.start && (a.end_ < b.end_ || (a.end_ == b.end_ && a.size ≤ b.size)))
 
+/-- stable insertion sort (`sorted(competing_lrs, key=…)`): an element is placed in front of the first element of the sorted
+    rest that is not smaller, so ranges with equal keys keep their order -/
+def insertSorted (a : FLR) : List FLR → List FLR
+  | [] => [a]
+  | b :: r => if flrLe a b then a :: b :: r else b :: insertSorted a r
+
+def sortFlr : List FLR → List FLR
+  | [] => []
+  | a :: r => insertSorted a (sortFlr r)
+
 /-- the loop that removes ranges whose life time stands out (`copy` = the list it iterates over, `competing` = the list it
     removes from) -/
 def longPhase (copy : List FLR) : List (FLR × Nat) → FS → List FLR → Except Err (FS × List FLR)
@@ -553,12 +563,14 @@ def longPhase (copy : List FLR) : List (FLR × Nat) → FS → List FLR → Exce
         else longPhase copy rest st competing
     else longPhase copy rest st competing
 
-/-- "Split competing live ranges into components": the `(start, end)` index pairs -/
-def componentRanges : List (FLR × Nat) → Nat → Nat → List (Nat × Nat) → Nat → List (Nat × Nat)
-  | [], start, _, acc, n => acc ++ [(start, n)]
-  | (lr, i) :: rest, start, endTime, acc, n =>
-    if lr.start ≤ endTime && i - start < maxItems then componentRanges rest start (max endTime lr.end_) acc n
-    else componentRanges rest i lr.end_ (acc ++ [(start, i)]) n
+/-- "Split competing live ranges into components": the loop computes index pairs `(start, i)` of consecutive groups and the
+    caller slices `competing_lrs[start:end]`; here the groups themselves (`cur` = the group being filled, `nbr_items` = its
+    length, `endTime` = `end_time`) -/
+def components : List FLR → List FLR → Nat → List (List FLR)
+  | [], cur, _ => [cur]
+  | lr :: rest, cur, endTime =>
+    if lr.start ≤ endTime && cur.length < maxItems then components rest (cur ++ [lr]) (max endTime lr.end_)
+    else cur :: components rest [lr] lr.end_
 
 structure FSResult where
   /-- `false`: the function returned before any range was evicted or kept ("all lrs fit") -/
@@ -567,6 +579,18 @@ structure FSResult where
   /-- `fixed_mem_usage` -/
   fixed : List Int
 deriving Repr, Inhabited
+
+/-- the end of `use_fast_storage_for_feature_maps`: split the competing ranges into components, allocate each, and the
+    final assertion -/
+def fastComponents (limit : Int) (fixed : List Int) (st3 : FS) (competing3 : List FLR) : Except Err FSResult :=
+  match competing3 with
+  | [] => .error .index       -- `competing_lrs[0]` of an empty list
+  | first :: _ => do
+    let comps := components competing3 [] first.end_
+    let st4 ← comps.foldlM (init := st3) fun st c => allocateComponent limit st c
+    -- the final assertion
+    if (st4.maxU.zip fixed).all fun p => p.1 ≤ max limit p.2 then .ok { entered := true, st := st4, fixed := fixed }
+    else .error .assert_
 
 /-- `use_fast_storage_for_feature_maps` after the extraction of the live ranges: `lrs = lr_graph.lrs`,
     `ct = lr_graph.current_time`, `limit = staging_limit` -/
@@ -582,17 +606,10 @@ def useFastStorage (lrs : List FLR) (ct : Nat) (limit : Int) : Except Err FSResu
   let (st1, curr1) ← neverFitPhase limit curr { st0 with baseU := baseU } []
   let (st2, competing) ← alwaysFitPhase limit curr1 st1 []
   if competing.isEmpty then .ok { entered := true, st := st2, fixed := fixed } else
-  let sorted := competing.mergeSort flrLe
+  let sorted := sortFlr competing
   let (st3, competing3) ←
     if sorted.length > maxItems then longPhase sorted sorted.zipIdx st2 sorted else .ok (st2, sorted)
-  match competing3 with
-  | [] => .error .index       -- `competing_lrs[0]` of an empty list
-  | first :: _ =>
-    let comps := componentRanges competing3.zipIdx 0 first.end_ [] competing3.length
-    let st4 ← comps.foldlM (init := st3) fun st p => allocateComponent limit st ((competing3.drop p.1).take (p.2 - p.1))
-    -- the final assertion
-    if (st4.maxU.zip fixed).all fun p => p.1 ≤ max limit p.2 then .ok { entered := true, st := st4, fixed := fixed }
-    else .error .assert_
+  fastComponents limit fixed st3 competing3
 
 /-! ## `propose_operator_buffering`, the memory arithmetic of `propose_weight_buffering` -/
 
